@@ -6,6 +6,7 @@ package main
 import (
 	"fmt"
 	"go/constant"
+	"sort"
 	"go/token"
 	"go/types"
 	"strings"
@@ -1080,4 +1081,332 @@ func c04PublishedEntriesAreComplete(c *Ctx, p *Prog) {
 			"the cache entry is written (at "+bad+") after it was put into the shared map: a goroutine tidying the same new unit meanwhile reads the empty entry and reports the measurement with an empty unit and factor 0")
 	}
 	c.Floor(R, "stores into the unit cache", n, 1)
+}
+
+// ---- one-slot caches ----
+
+// A one-slot cache: a function loads a field, and on a "hit" (conditions that read the slot or the fields stored together
+// with it) uses the loaded value; otherwise it computes a value and stores it into the field. The cached value may be
+// reused only when everything it was computed from is the same, so every input of the computation that is already
+// known at the hit test must take part in that test.
+type slotMemo struct {
+	Fn      *ssa.Function
+	Store   *ssa.Store
+	Slot    *types.Var
+	Inputs  []string
+	Tested  []string
+	Missing []string
+}
+
+func slotMemos(fn *ssa.Function) []slotMemo {
+	var out []slotMemo
+	if fn.Blocks == nil {
+		return nil
+	}
+	baseOf := func(a ssa.Value) ssa.Value {
+		for {
+			switch x := a.(type) {
+			case *ssa.FieldAddr:
+				a = x.X
+				continue
+			case *ssa.IndexAddr:
+				a = x.X
+				continue
+			case *ssa.UnOp:
+				if x.Op == token.MUL {
+					a = x.X
+					continue
+				}
+			}
+			return a
+		}
+	}
+	rootName := func(v ssa.Value) string {
+		if u, ok := v.(*ssa.UnOp); ok && u.Op == token.MUL {
+			v = baseOf(u.X)
+		}
+		switch x := v.(type) {
+		case *ssa.Parameter:
+			return x.Name()
+		case *ssa.FreeVar:
+			return x.Name()
+		case *ssa.Alloc:
+			if x.Comment != "" {
+				return x.Comment
+			}
+		case *ssa.Call:
+			if co := calleeObj(&x.Call); co != nil {
+				return x.Name() + "=" + co.Name() + "(…)"
+			}
+		}
+		return v.Name()
+	}
+	for _, b := range fn.Blocks {
+		for _, in := range b.Instrs {
+			st, ok := in.(*ssa.Store)
+			if !ok {
+				continue
+			}
+			slot, _ := fieldOfAddr(st.Addr)
+			if slot == nil {
+				continue
+			}
+			stBase := baseOf(st.Addr)
+			// the fields stored together with the slot
+			group := map[*types.Var]bool{slot: true}
+			for _, in2 := range b.Instrs {
+				if st2, ok := in2.(*ssa.Store); ok {
+					if f, _ := fieldOfAddr(st2.Addr); f != nil && sameValue(baseOf(st2.Addr), stBase) {
+						group[f] = true
+					}
+				}
+			}
+			isSlotLoad := func(v ssa.Value) bool {
+				u, ok := v.(*ssa.UnOp)
+				if !ok || u.Op != token.MUL {
+					return false
+				}
+				f, _ := fieldOfAddr(u.X)
+				return f == slot && !instrDominates(st, u)
+			}
+			// an accumulator (x.f = g(x.f)) is not a cache
+			if reaches(st.Val, isSlotLoad) {
+				continue
+			}
+			// hit uses of the slot's old value
+			var hitFacts []fact
+			eachInstr(fn, func(hb *ssa.BasicBlock, hin ssa.Instruction) {
+				switch x := hin.(type) {
+				case *ssa.Return:
+					for _, r := range x.Results {
+						if isSlotLoad(r) && !b.Dominates(hb) {
+							hitFacts = append(hitFacts, factsAt(hb)...)
+						}
+					}
+				case *ssa.Phi:
+					hasOld, hasNew := -1, false
+					for i, e := range x.Edges {
+						if isSlotLoad(e) {
+							hasOld = i
+						}
+						if e == st.Val {
+							hasNew = true
+						}
+					}
+					if hasOld >= 0 && hasNew {
+						pr := hb.Preds[hasOld]
+						hitFacts = append(hitFacts, factsAt(pr)...)
+						if ifi, ok := pr.Instrs[len(pr.Instrs)-1].(*ssa.If); ok && pr.Succs[0] != pr.Succs[1] {
+							cond, tr := ifi.Cond, pr.Succs[0] == hb
+							for {
+								u, ok := cond.(*ssa.UnOp)
+								if ok && u.Op == token.NOT {
+									cond, tr = u.X, !tr
+									continue
+								}
+								break
+							}
+							hitFacts = append(hitFacts, fact{cond, tr, ifi})
+						}
+					}
+				}
+			})
+			if len(hitFacts) == 0 {
+				continue
+			}
+			// the test point: the outermost hit condition that reads the slot group
+			var t0 *ssa.BasicBlock
+			for _, f := range hitFacts {
+				if reaches(f.Cond, func(x ssa.Value) bool {
+					u, ok := x.(*ssa.UnOp)
+					if !ok || u.Op != token.MUL {
+						return false
+					}
+					g, _ := fieldOfAddr(u.X)
+					return g != nil && group[g]
+				}) {
+					if t0 == nil || f.If.Block().Dominates(t0) {
+						t0 = f.If.Block()
+					}
+				}
+			}
+			if t0 == nil {
+				continue
+			}
+			avail := func(v ssa.Value) bool {
+				switch v.(type) {
+				case *ssa.Parameter, *ssa.FreeVar:
+					return true
+				}
+				in, ok := v.(ssa.Instruction)
+				if !ok || in.Block() == nil {
+					return false
+				}
+				return in.Block() == t0 || in.Block().Dominates(t0)
+			}
+			frontier := func(start []ssa.Value) map[string]bool {
+				res := map[string]bool{}
+				seen := map[ssa.Value]bool{}
+				var walk func(v ssa.Value, d int)
+				ctl := func(blk *ssa.BasicBlock, d int) {
+					for _, f := range factsAt(blk) {
+						if f.If.Block() != t0 && t0.Dominates(f.If.Block()) {
+							walk(f.Cond, d+1)
+						}
+					}
+				}
+				walk = func(v ssa.Value, d int) {
+					if v == nil || seen[v] || d > 60 {
+						return
+					}
+					seen[v] = true
+					switch v.(type) {
+					case *ssa.Const, *ssa.Function, *ssa.Builtin, *ssa.Global:
+						return
+					}
+					if avail(v) {
+						res[rootName(v)] = true
+						return
+					}
+					in, ok := v.(ssa.Instruction)
+					if !ok {
+						return
+					}
+					if phi, ok := v.(*ssa.Phi); ok {
+						for _, pr := range phi.Block().Preds {
+							ctl(pr, d)
+						}
+					}
+					if al, ok := v.(*ssa.Alloc); ok {
+						for _, r := range *al.Referrers() {
+							switch x := r.(type) {
+							case *ssa.Store:
+								walk(x.Val, d+1)
+								ctl(x.Block(), d)
+							case ssa.CallInstruction:
+								for _, a := range callArgs(x.Common()) {
+									walk(a, d+1)
+								}
+								ctl(x.Block(), d)
+							case *ssa.FieldAddr, *ssa.IndexAddr:
+								for _, r2 := range *x.(ssa.Value).Referrers() {
+									if st2, ok := r2.(*ssa.Store); ok {
+										walk(st2.Val, d+1)
+										ctl(st2.Block(), d)
+									}
+								}
+							}
+						}
+					}
+					for _, op := range in.Operands(nil) {
+						if *op != nil {
+							walk(*op, d+1)
+						}
+					}
+				}
+				for _, s := range start {
+					walk(s, 0)
+				}
+				return res
+			}
+			inputs := frontier([]ssa.Value{st.Val})
+			var conds []ssa.Value
+			for _, f := range hitFacts {
+				conds = append(conds, f.Cond)
+			}
+			// conditions are evaluated at or after the test point: everything they read that is known there
+			tested := map[string]bool{}
+			{
+				seen := map[ssa.Value]bool{}
+				var walk func(v ssa.Value, d int)
+				walk = func(v ssa.Value, d int) {
+					if v == nil || seen[v] || d > 60 {
+						return
+					}
+					seen[v] = true
+					switch v.(type) {
+					case *ssa.Const, *ssa.Function, *ssa.Builtin, *ssa.Global:
+						return
+					}
+					in, isIn := v.(ssa.Instruction)
+					inCond := isIn && in.Block() != nil && (in.Block() == t0 || t0.Dominates(in.Block()))
+					if avail(v) && !inCond || !isIn {
+						tested[rootName(v)] = true
+						return
+					}
+					if avail(v) {
+						// defined in the test block itself: a root unless it is part of the condition's own arithmetic
+						switch v.(type) {
+						case *ssa.BinOp, *ssa.UnOp, *ssa.Call, *ssa.Extract, *ssa.FieldAddr, *ssa.IndexAddr, *ssa.Field, *ssa.Index, *ssa.Lookup, *ssa.Phi, *ssa.Convert, *ssa.ChangeType, *ssa.MakeInterface, *ssa.TypeAssert:
+							if u, ok := v.(*ssa.UnOp); ok && u.Op == token.MUL {
+								tested[rootName(v)] = true
+							}
+						default:
+							tested[rootName(v)] = true
+							return
+						}
+					}
+					for _, op := range in.Operands(nil) {
+						if *op != nil {
+							walk(*op, d+1)
+						}
+					}
+				}
+				for _, cnd := range conds {
+					walk(cnd, 0)
+				}
+			}
+			m := slotMemo{Fn: fn, Store: st, Slot: slot}
+			for k := range inputs {
+				m.Inputs = append(m.Inputs, k)
+				if !tested[k] {
+					m.Missing = append(m.Missing, k)
+				}
+			}
+			for k := range tested {
+				m.Tested = append(m.Tested, k)
+			}
+			sort.Strings(m.Inputs)
+			sort.Strings(m.Tested)
+			sort.Strings(m.Missing)
+			out = append(out, m)
+		}
+	}
+	return out
+}
+
+// slotMemoAllow: reviewed one-slot caches that are kept on purpose, by function and field.
+var slotMemoAllow = map[string]string{
+	"(*benchseries.ComparisonSeries).AddSummaries/Summary": "not a cache of the last call but the point's summary itself: AddSummaries documents filling in the summaries that are missing (others arrive from JSON), so one computed under an earlier confidence/N is kept by design",
+}
+
+// slotMemoRule: every one-slot cache in the given packages tests every input of the cached computation.
+func slotMemoRule(c *Ctx, p *Prog, R string, floorCtl bool, rels ...string) {
+	n := 0
+	for _, fn := range p.Funcs(rels...) {
+		for i, m := range slotMemos(fn) {
+			n++
+			key := fmt.Sprintf("%s:one-slot cache %s#%d", fnName(fn), m.Slot.Name(), i+1)
+			if why, ok := slotMemoAllow[fnName(fn)+"/"+m.Slot.Name()]; ok {
+				c.Allow(R, fnName(fn)+"/"+m.Slot.Name(), why)
+				c.OK(R, key, p.pos(m.Store.Pos()), "reviewed: "+why)
+				continue
+			}
+			c.Check(len(m.Missing) == 0, R, key, p.pos(m.Store.Pos()), fmt.Sprintf("computed from %v, reused only when %v agree", m.Inputs, m.Tested),
+				fmt.Sprintf("the value cached in %s is computed from %v but reused whenever %v agree: %v take no part in the test, so a call that differs only there gets the previous call's answer", m.Slot.Name(), m.Inputs, m.Tested, m.Missing))
+		}
+	}
+	c.extra["one_slot_caches_"+strings.ReplaceAll(R, "/", "_")] = n
+	if floorCtl {
+		ctl := mustLoad(c, loadOpts{dir: c.HomeDir + "/checker"}, "./testdata/lookbehind")
+		bad := 0
+		for _, fn := range ctl.Funcs("perfcheck/testdata/lookbehind") {
+			for _, m := range slotMemos(fn) {
+				if len(m.Missing) > 0 {
+					bad++
+				}
+			}
+		}
+		c.Check(bad >= 1, R, "control:one-slot cache with an untested input", "checker/testdata/lookbehind/lb.go", fmt.Sprintf("the matcher reports the planted cache (%d)", bad), "the planted one-slot cache with an untested input is not reported: the matcher is broken")
+	}
 }
